@@ -110,7 +110,7 @@ func c12NodeIndex(c *Ctx) {
 				}
 				// a node the document only refers to: a bare node {"@id": id} stored under that very id, read from a value of the document
 				if s.v != nil && s.v.K == symStruct && len(s.v.Fields) == 1 && s.k != nil {
-					if idv, ok := s.v.Fields["@id"]; ok && idv.String() == s.k.String() && strings.Contains(s.k.String(), "[*]") && strings.HasSuffix(s.k.String(), `["@id"]`) {
+					if idv, ok := s.v.Fields["@id"]; ok && idv.String() == s.k.String() && len(s.loops) > 0 {
 						r.OK("C12.J9", ord.next(key+"#entry"), p.Pos(s.pos), "a node the document refers to, stored as a bare node under its own @id")
 						continue
 					}
